@@ -1,4 +1,5 @@
 """Properties about content and text decoding: C13 C14 C15 C16."""
+import re
 import struct
 import zlib
 
@@ -769,7 +770,28 @@ def ref_text(hs, body):
         return ("SOME", "".join(chr(b if (b < 0x80 or b >= 0xA0) else W1252_HIGH[b - 0x80]) for b in body).encode("utf-8"))
     if label in [l.lower() for l in UNKNOWN_LABELS]:
         return ("NONE",)
+    if any(b >= 0x80 for b in label):
+        return ("NONE",)        # every label encoding_rs knows is ASCII; no case mapping or trimming may make one of this
     return ("ABSTAIN", label)
+
+
+LOOKALIKE_MAP = [("k", "\u212a"), ("K", "\u212a"), ("s", "\u017f"), ("S", "\u017f"), ("i", "\u0131"), ("I", "\u0131"), ("i", "\u0130"), ("I", "\u0130"),
+                 ("ss", "\u00df"), ("SS", "\u1e9e"), ("fi", "\ufb01"), ("1", "\uff11"), ("8", "\u0668"), ("a", "\u00e5"), ("A", "\u212b"), (" ", "\u00a0"), ("-", "\u2010"), ("=", "\uff1d")]
+
+
+def unicode_lookalike(rng, token):
+    """replace one ASCII character (or pair) of the token by a multi-byte character that a case mapping, a white-space or a
+    digit predicate treats like it; the token unchanged if none applies"""
+    try:
+        t = token.decode("ascii")
+    except UnicodeDecodeError:
+        return token
+    opts = [(a, b) for a, b in LOOKALIKE_MAP if a in t]
+    if not opts:
+        return token
+    a, b = rng.pick(opts)
+    i = rng.pick([m.start() for m in re.finditer(re.escape(a), t)])
+    return (t[:i] + b + t[i + len(a):]).encode()
 
 
 def gen_content_type(rng):
@@ -801,6 +823,14 @@ def gen_content_type(rng):
         else:
             params.insert(rng.below(len(params) + 1), gen.randcase(rng, b"charset") + b"=" + t)
     v = ty + sep + sub
+    if rng.chance(1, 10):
+        # a multi-byte character whose case mapping or class is an ASCII one (Kelvin sign -> k, long s -> S, dotless i -> I,
+        # NBSP / EM SPACE as white space, ...) in place of the ASCII character: never the same token, whatever
+        # `to_lowercase` / `to_uppercase` / `trim` make of it (seventh round: `to_lowercase` turned U+212A OI8-R into koi8-r)
+        params = [unicode_lookalike(rng, p0) for p0 in params]
+        if rng.chance(1, 4):
+            ty = unicode_lookalike(rng, ty)
+            v = ty + sep + sub
     for p in params:
         v += rng.pick([b";", b"; ", b" ;", b";\t", ";  ".encode(), "; ".encode(), b" ; "]) + p + rng.pick([b"", b"", b" ", " ".encode()])
     if rng.chance(1, 12):
@@ -849,6 +879,32 @@ class C16:
             g = Group("x%d" % k, "text", {"headers": [[a.hex(), b.hex()] for a, b in hs], "body": body.hex()})
             g.add("text", "TEXT %s %s" % (hdrs_field(hs), hx(body)))
             groups.append(g)
+        # every known label, the parameter name and the type with each ASCII character in turn replaced by a multi-byte
+        # character that a case mapping or a character-class predicate treats like it: such a token is never the ASCII one
+        j = 0
+        for lab in UTF8_LABELS + LATIN1_LABELS + OTHER_LABELS + [b"euc-kr", b"korean", b"ks_c_5601-1987", b"koi8-u", b"koi", b"koi8", b"iso-2022-kr", b"sjis", b"ms_kanji", b"csshiftjis", b"greek", b"turkish", b"latin5"]:
+            for a, b in LOOKALIKE_MAP:
+                t = lab.decode()
+                for variant in set([t.replace(a, b, 1), t.upper().replace(a, b, 1), t.replace(a, b)]):
+                    if variant in (t, t.upper()):
+                        continue
+                    for ct in ("text/plain; charset=" + variant, "text/plain; CHARSET=" + variant + " "):
+                        hs = [(b"Content-Type", ct.encode())]
+                        body = b"caf\xc3\xa9 abc"
+                        g = Group("u%d" % j, "text-lookalike", {"headers": [[x.hex(), y.hex()] for x, y in hs], "body": body.hex()})
+                        g.add("text", "TEXT %s %s" % (hdrs_field(hs), hx(body)))
+                        groups.append(g)
+                        j += 1
+        for name in ("charset", "CHARSET", "Charset"):
+            for a, b in LOOKALIKE_MAP:
+                if a in name:
+                    for ty in ("text/plain", "TEXT/plain"):
+                        hs = [(b"Content-Type", (ty + "; " + name.replace(a, b, 1) + "=utf-8").encode())]
+                        body = b"\xff\xfe invalid as utf-8"
+                        g = Group("u%d" % j, "text-lookalike", {"headers": [[x.hex(), y.hex()] for x, y in hs], "body": body.hex()})
+                        g.add("text", "TEXT %s %s" % (hdrs_field(hs), hx(body)))
+                        groups.append(g)
+                        j += 1
         for k in range(n // 20):
             # the same body under a known label, an unknown label, the unknown label again, another known label ...
             body = rng.pick(VALID_UTF8[1:]) + rng.pick([b"", b"\xe9", b"caf\xc3\xa9"])
